@@ -132,7 +132,14 @@ def stack_monitor(ctx, env, program, detail):
 def x_prog(ctx, case):
     program = expand(case)
     env = programs.Env(program)
-    log = recorders.Log()
+    breaks = {"TypeError": TypeError, "LookupError": LookupError, "RuntimeError": RuntimeError}.get(case.get("result_breaks"))
+
+    def hook(name, test):
+        # a result whose outcome method fails (a reporter with a bug, a full disk): the error leaves run(); the stages
+        # and cleanups still ran once each - nothing is run a second time because the RESULT raised
+        if breaks is not None and name in recorders.OUTCOMES:
+            raise breaks("the result breaks in " + name)
+    log = recorders.Log(hook)
     runner = programs.runner_factory_for(case.get("runner"))
     the_case = programs.build_case(program, env, runner)
     initial = {k: (programs.SPECIAL_VALUES.get(v, v) if isinstance(v, str) else v)
@@ -362,4 +369,6 @@ def run(ctx):
             case["runner"] = "sync"
         elif r < 0.3 and not prog.get("decor"):
             case["runner"] = "async"
+        if rng.random() < 0.06:
+            case["result_breaks"] = rng.choice(["TypeError", "TypeError", "LookupError", "RuntimeError"])
         ctx.execute("prog", case)
